@@ -331,6 +331,15 @@ def classify_site(ck, prog, ctx, bb, name, kinds, key):
     if returns_raw and not all(dominated_by_any(succ_edges, rb) or dominated_by_any(err_edges, rb) for rb in cfg.return_blocks() if _ret_reads(ctx, rb, kinds)):
         ok_all = False
         ck.ob("C09.2", f"{key}|raw-returned", False, fn=path, site=ctx.site(bb), detail=f"the raw result of {name} is returned without classification")
+    # nothing else can end the wrapper between the call and the look at its result: a `?` on some other value in between (an out-array
+    # checked first, say) returns without the errno the kernel gave
+    nxt = cfg.term(bb).get("t")
+    if nxt is not None:
+        early = [rb for rb in cfg.return_blocks() if rb in cfg.reachable_from(nxt, avoid={cb for cb, _ in class_calls})]
+        if early:
+            ok_all = False
+            ck.ob("C09.2", f"{key}|result-examined-before-any-other-exit", False, fn=path, site=ctx.site(early[0]),
+                  detail=f"the wrapper can return after {name} without having classified its result: an error reported by the kernel is then lost (no errno) or replaced")
     if ok_all:
         ck.ob("C09.2", f"{key}|classified", True, fn=path, site=ctx.site(bb), detail="classified before use")
     # C09.4 success payload: no arithmetic on the result inside Ok(..)
